@@ -223,13 +223,6 @@ pub fn object_times(m: &mut Beatmap) -> Vec<f64> {
     out
 }
 
-/// D18 classifier: two distinct control-point times closer than f64::EPSILON (the decoder's same-time grouping
-/// cannot tell them apart once their lines are adjacent)
-pub fn has_times_closer_than_epsilon(cp: &ControlPoints) -> bool {
-    let mut t = control_point_times(cp);
-    t.sort_by(|a, b| a.partial_cmp(b).unwrap_or(std::cmp::Ordering::Equal));
-    t.windows(2).any(|w| w[0] != w[1] && (w[1] - w[0]).abs() < f64::EPSILON)
-}
 
 pub fn control_point_times(cp: &ControlPoints) -> Vec<f64> {
     let mut out = Vec::new();
